@@ -25,6 +25,8 @@ from typing import (
 from intervaltree import Interval, IntervalTree
 from typing_extensions import Protocol
 
+from . import _veriftrace
+
 _K = TypeVar("_K")
 _Kco = TypeVar("_Kco", covariant=True)
 _V = TypeVar("_V")
@@ -102,6 +104,18 @@ class LazyIntervalTree(Generic[_K, _V]):
                 if interval:
                     yield interval
 
+        if _veriftrace.ENABLED:
+            _veriftrace.emit(
+                "lazy.get",
+                owner=id(self),
+                branch="build"
+                if self._interval_index is None
+                else "rebuild"
+                if len(self._value_collection) <= len(self._interval_events)
+                else "replay",
+                events=len(self._interval_events),
+                values=len(self._value_collection),
+            )
         if self._interval_index is None:
             self._interval_index = IntervalTree(intervals())
         elif len(self._value_collection) <= len(self._interval_events):
